@@ -165,6 +165,30 @@ def build(unit_name, outdir, global_rw=()):
             elif key in ('fn', 'item'):
                 cur = Block(key, [x.strip() for x in arg.split('|')])
                 payload_key = None
+            elif key == 'lemma_begin':
+                meta.setdefault('_open_lemma', (arg.split()[0], len(out) + 1, ' '.join(arg.split()[1:])))
+            elif key == 'lemma_end':
+                nm, st, desc = meta.pop('_open_lemma')
+                meta['functions'].append(dict(name=nm, repo_file='(lemma over contracts)', repo_line=0, ctx='', sha256='',
+                                              gen_lines=[st, len(out)], canary=None, desc=desc or 'lemma', props=None,
+                                              rewrites=0, key='%s::lemma::%s' % (unit_name, nm), qual='', lemma=True))
+            elif key == 'foreach':
+                # //@foreach <file> | <regex, group 1 = comma separated list> | min=<n> | <template using $ITEM>
+                parts = [x.strip() for x in arg.split(' | ')]
+                if len(parts) != 4:
+                    raise UnitError('%s: bad //@foreach: %s' % (tpath, arg))
+                rel, rx, mn, tmpl = parts
+                sf = srcfile(rel)
+                items = []
+                for mm in re.finditer(rx, sf.m, re.S):
+                    lst = sf.src[mm.start(1):mm.end(1)]
+                    items += [x.strip() for x in lst.split(',') if x.strip()]
+                if len(items) < int(mn.split('=')[1]):
+                    raise LostAnchor('%s: call-site list /%s/ yields %d items, expected at least %s' % (rel, rx, len(items), mn))
+                out.append('// ---- %d items extracted from %s by /%s/' % (len(items), rel, rx))
+                for it_ in items:
+                    out.append(tmpl.replace('$ITEM', it_))
+                meta.setdefault('foreach', []).append(dict(file=rel, regex=rx, items=items))
             else:
                 raise UnitError('%s: unknown top-level directive //@%s' % (tpath, key))
             continue
@@ -562,6 +586,11 @@ def analyse(meta, r):
     if vr.get('encountered-vir-error') or (not vr.get('success') and vr.get('errors', 0) == 0 and not hard):
         hard.append('verus reported an internal/VIR error')
     res['undecided'].extend(hard)
+    if hard or not vr.get('success', False) and vr.get('verified', 0) == 0 and vr.get('errors', 0) == 0:
+        # the unit did not get as far as verification (type error, unsupported construct, ...): nothing is proved
+        for k in fstat:
+            if fstat[k]['status'] == 'ok':
+                fstat[k]['status'] = 'undecided'
     # timings
     try:
         for mt in js['times-ms']['smt']['smt-run-module-times']:
